@@ -356,15 +356,6 @@ Definition get_completion_subwords rt ids maxlevel :=
   completion_table rt maxlevel
     (fun x => match x with ISub s l => Some (l, sub_id_or_panic ids s) | _ => None end) push.
 
-(** accepting states of every within-word automaton, keyed by script id and shifted by the array
-    base (bash.rs [write_accepting_states]); [ids] = (pool index, script id) *)
-Definition sub_accepting (c : cdfa) (start : N) (ids : list (N * N)) : list (N * list N) :=
-  map (fun pi => (snd pi,
-                  match nthN (c_subs c) (fst pi) with
-                  | Some sd => map (fun s => N.add s start) (d_accepting sd)
-                  | None => []
-                  end)) ids.
-
 (** Everything an emitter computes from the automaton, for shell [sh].  [ord_main] and [ord_subs]
     (keyed by pool index) are the literal orders (oracle). *)
 Definition all_tables (sh : shell) (c : cdfa) (ord_main : list (string * string))
@@ -384,7 +375,11 @@ Definition all_tables (sh : shell) (c : cdfa) (ord_main : list (string * string)
       let ord := match assocN (fst pi) ord_subs with Some o => o | None => [] end in
       do t <- get_lookup_tables sd cmds start (n_sub_cmd nd) (compadd_switch sh (n_sub_compadd nd)) (n_sub_star nd) ord;
       Ok (fst pi, snd pi, t)) ids;
-  Ok (nd, mkall cmds states main subtrans csub subs (sub_accepting c start ids)).
+  (* bash.rs accepting_from_id: the accepting states of each within-word automaton, + ARRAY_START *)
+  do subacc <- omap (fun pi =>
+      do sd <- lookup_sub c (fst pi);
+      Ok (snd pi, map (fun s => s + start) (d_accepting sd))) ids;
+  Ok (nd, mkall cmds states main subtrans csub subs subacc).
 
 (** every literal order used is valid *)
 Definition valid_orders (c : cdfa) (ord_main : list (string * string))
